@@ -21,6 +21,26 @@ CHECKS = {
                      "decoder, invisible to any round-trip test, is caught.",
                 note="the frozen table mc/wiretable.py is trusted as the published table (mov = 42 after the C01 repair)",
                 ref="3/C02"),
+    "C03": dict(cat="exploration", tech="bounded-exhaustive program enumeration; real assembler output executed on an independent reference VM against source-level interpretation",
+                text="All source programs up to 3 (thorough 4) instructions over a menu with literals in every register position, "
+                     "array index and slice bound, every placement of up to two labels (consecutive, after the end, forward and "
+                     "backward), both entry forms (text and ProtoSubroutine), all ordered macro definitions over prefix-related "
+                     "keys, argument brackets and the 11..16-register pressure family are assembled by the real assembler; the "
+                     "result is executed on the reference VM from a state where every register holds a distinct sentinel and "
+                     "compared with the source-level interpretation (named registers, arrays, shared memory, fault class, "
+                     "source-pc trace) and re-derived structurally (scratch registers fresh and distinct, targets = first emitted "
+                     "instruction of the labelled source instruction).",
+                note="reference VM and macro expander in /verif are trusted; programs beyond the size bound are not covered",
+                ref="3/C03"),
+    "C04": dict(cat="model_checking", tech="explicit-state BFS over instruction histories on the real executor with canonical state hashing, plus exhaustive short programs, against a reference VM",
+                text="Breadth-first search over histories of single-instruction subroutines (45-instruction menu, depth 4 quick / 6 "
+                     "thorough) against one application state on the real executor, hashing registers, arrays, shared memory and "
+                     "allocation; every transition is compared with the independent reference VM (state, fault class, fault line, "
+                     "state unchanged on fault, blocked waits). All programs up to 3 (thorough 4) instructions with every branch "
+                     "kind and every jump target are run under a step horizon and compared on the executed-pc trace and final state.",
+                note="reference semantics of appendix B; 'unspecified' cases (negative indices, undefined operands) excluded and counted; "
+                     "quantum hooks and wait polling are harness overrides of no-op/abstract methods",
+                ref="3/C04"),
     "C15": dict(cat="exploration", tech="bounded-exhaustive enumeration of message serialise/deserialise round trips",
                 text="Every host-to-controller and controller-to-host message type is serialised and deserialised by the real code "
                      "for every value of each field's boundary lattice (complete for 8-bit fields) against two backgrounds, every "
